@@ -427,3 +427,172 @@ Qed.
 Theorem glyph_history_independent (fs : font_static) (ops : list gop) :
   g_run fs font_new ops = g_spec_run fs DEFAULT_IMAGE_FILTER ops.
 Proof. apply (g_run_spec fs ops font_new). apply ginv_new. Qed.
+
+(* ------------------------------------------------------------------------------------------------ *)
+(** * 6. the generated site table *)
+
+Definition str_mem (x : String.string) (l : list String.string) : bool := existsb (String.eqb x) l.
+
+(* every parameter (or self field) the stored value is computed from is part of the key, fixed on the cached
+   path, or constant for the lifetime of the object; and the key components are injective views of parameters *)
+Definition site_ok (s : site) : bool :=
+  s_key_injective s &&
+  forallb (fun v => str_mem v (s_key s) || str_mem v (s_pinned s) || str_mem v (s_const s)) (s_loader s).
+
+Lemma str_mem_In x l : str_mem x l = true <-> In x l.
+Proof.
+  unfold str_mem. rewrite existsb_exists. split.
+  - intros [y [Hy E]]. apply String.eqb_eq in E. subst y. exact Hy.
+  - intros H. exists x. split; [exact H | apply String.eqb_refl].
+Qed.
+
+Lemma site_ok_spec s :
+  site_ok s = true ->
+  s_key_injective s = true /\
+  forall v, In v (s_loader s) -> In v (s_key s) \/ In v (s_pinned s) \/ In v (s_const s).
+Proof.
+  unfold site_ok. rewrite andb_true_iff, forallb_forall. intros [Hi Hl]. split; [exact Hi|].
+  intros v Hv. specialize (Hl v Hv). rewrite !orb_true_iff, !str_mem_In in Hl. tauto.
+Qed.
+
+Lemma sites_ok : forallb site_ok sites = true.
+Proof. vm_compute. reflexivity. Qed.
+
+(* ------------------------------------------------------------------------------------------------ *)
+(** * 7. the key of get_lookups_cache_index as an instance of the generic condition, and the old keys refuted *)
+
+(* arguments of get_lookups_cache_index: (script, language, mask, variation tuple) *)
+Definition li_arg : Type := Z * option Z * Z * option (list Z).
+Definition li_f (g : gsub) (a : li_arg) : outcome (list (Z * Z)) :=
+  let '(s, l, m, t) := a in lookups_spec g s l t m.
+Definition li_key (g : gsub) (a : li_arg) : Z * option Z * Z * option Z :=
+  let '(s, l, m, t) := a in (s, l, m, fv_key (feature_variations g t)).
+
+Lemma li_key_captures g :
+  key_captures (li_f g) (li_key g) (fun _ => true) (fun _ => true).
+Proof.
+  intros [[[s1 l1] m1] t1] [[[s2 l2] m2] t2] _ _ Hk _. unfold li_key in Hk. inversion Hk; subst.
+  unfold li_f. change (lookups_with g s2 l2 m2 (feature_variations g t1) = lookups_with g s2 l2 m2 (feature_variations g t2)).
+  rewrite !lookups_with_key by apply feature_variations_valid. congruence.
+Qed.
+
+(* the key before the fixes: no feature-table substitution, language None folded into DFLT *)
+Definition li_key_no_fv (a : li_arg) : Z * option Z * Z :=
+  let '(s, l, m, _) := a in (s, l, m).
+Definition li_key_lang_dflt (g : gsub) (a : li_arg) : Z * Z * Z * option Z :=
+  let '(s, l, m, t) := a in
+  (s, match l with Some x => x | None => TAG_DFLT end, m, fv_key (feature_variations g t)).
+
+Definition TAG_RVRN : Z := 1920365166.
+Definition TAG_LIGA : Z := 1818847073.
+Definition TAG_LATN : Z := 1818326126.
+Definition MASK_RVRN : Z := 35184372088832.
+Definition MASK_LIGA : Z := 4194304.
+
+(* rvrn -> lookup 1, replaced by lookup 3 when axis 0 is in [0, 1] *)
+Definition g_f13 : gsub :=
+  mk_gsub [(TAG_RVRN, [1]); (TAG_LIGA, [2])]
+          [mk_script TAG_DFLT (Some [0; 1]) []]
+          (Some [(CSet [(0, 0, 16384)], STable [(0, [3])])]).
+
+(* a LangSys record tagged DFLT next to a different default LangSys *)
+Definition g_f15 : gsub :=
+  mk_gsub [(TAG_LIGA, [2]); (TAG_LIGA, [3])]
+          [mk_script TAG_LATN (Some [0]) [(TAG_DFLT, [1])]]
+          None.
+
+Lemma f13_values :
+  li_f g_f13 (TAG_LATN, None, MASK_RVRN, Some [8192]) = Ok [(3, TAG_RVRN)] /\
+  li_f g_f13 (TAG_LATN, None, MASK_RVRN, Some [-8192]) = Ok [(1, TAG_RVRN)].
+Proof. split; vm_compute; reflexivity. Qed.
+
+Lemma f15_values :
+  li_f g_f15 (TAG_LATN, Some TAG_DFLT, MASK_LIGA, None) = Ok [(3, TAG_LIGA)] /\
+  li_f g_f15 (TAG_LATN, None, MASK_LIGA, None) = Ok [(2, TAG_LIGA)].
+Proof. split; vm_compute; reflexivity. Qed.
+
+Definition key3_eqb (a b : Z * option Z * Z) : bool :=
+  let '(s1, l1, m1) := a in let '(s2, l2, m2) := b in (s1 =? s2) && optz_eqb l1 l2 && (m1 =? m2).
+Lemma key3_eqb_spec a b : key3_eqb a b = true <-> a = b.
+Proof.
+  destruct a as [[s1 l1] m1], b as [[s2 l2] m2]. unfold key3_eqb.
+  rewrite !andb_true_iff, !Z.eqb_eq, optz_eqb_spec.
+  split; [intros [[H1 H2] H3]; congruence | intros H; inversion H; auto].
+Qed.
+
+Definition key4z_eqb (a b : Z * Z * Z * option Z) : bool :=
+  let '(s1, l1, m1, f1) := a in let '(s2, l2, m2, f2) := b in
+  (s1 =? s2) && (l1 =? l2) && (m1 =? m2) && optz_eqb f1 f2.
+Lemma key4z_eqb_spec a b : key4z_eqb a b = true <-> a = b.
+Proof.
+  destruct a as [[[s1 l1] m1] f1], b as [[[s2 l2] m2] f2]. unfold key4z_eqb.
+  rewrite !andb_true_iff, !Z.eqb_eq, optz_eqb_spec.
+  split; [intros [[[H1 H2] H3] H4]; congruence | intros H; inversion H; auto].
+Qed.
+
+(* F13: with the key (script, language, mask) one earlier call at another tuple changes the answer *)
+Lemma f13_old_key_refuted :
+  let q := query key3_eqb (li_f g_f13) li_key_no_fv (fun _ => true) (fun _ => true) in
+  let r := run key3_eqb (li_f g_f13) li_key_no_fv (fun _ => true) (fun _ => true) in
+  fst (q (r [] [(TAG_LATN, None, MASK_RVRN, Some [8192])]) (TAG_LATN, None, MASK_RVRN, Some [-8192]))
+  <> fst (q [] (TAG_LATN, None, MASK_RVRN, Some [-8192])).
+Proof.
+  cbv zeta.
+  apply (memo_refuted key3_eqb key3_eqb_spec (li_f g_f13) li_key_no_fv (fun _ => true) (fun _ => true));
+    try reflexivity.
+  destruct f13_values as [-> ->]. discriminate.
+Qed.
+
+(* F15: with None folded into DFLT an earlier call with the explicit tag changes the answer *)
+Lemma f15_old_key_refuted :
+  let q := query key4z_eqb (li_f g_f15) (li_key_lang_dflt g_f15) (fun _ => true) (fun _ => true) in
+  let r := run key4z_eqb (li_f g_f15) (li_key_lang_dflt g_f15) (fun _ => true) (fun _ => true) in
+  fst (q (r [] [(TAG_LATN, Some TAG_DFLT, MASK_LIGA, None)]) (TAG_LATN, None, MASK_LIGA, None))
+  <> fst (q [] (TAG_LATN, None, MASK_LIGA, None)).
+Proof.
+  cbv zeta.
+  apply (memo_refuted key4z_eqb key4z_eqb_spec (li_f g_f15) (li_key_lang_dflt g_f15) (fun _ => true) (fun _ => true));
+    try reflexivity.
+  destruct f15_values as [-> ->]. discriminate.
+Qed.
+
+(* F14: a GlyphCache keyed by the character alone and filled by every query *)
+Definition fs_f14 : font_static := mk_font_static [(DOTTED_CIRCLE, 3)] [] GTF_GLYF 0.
+Definition lg_f (a : Z * presentation * option Z) : Z * Z :=
+  let '(ch, mp, vs) := a in glyph_spec fs_f14 DEFAULT_IMAGE_FILTER ch mp vs.
+Definition lg_key_ch (a : Z * presentation * option Z) : Z := let '(ch, _, _) := a in ch.
+
+Lemma f14_old_key_refuted :
+  let q := query Z.eqb lg_f lg_key_ch (fun _ => true) (fun _ => true) in
+  let r := run Z.eqb lg_f lg_key_ch (fun _ => true) (fun _ => true) in
+  fst (q (r [] [(DOTTED_CIRCLE, Required, Some 16)]) (DOTTED_CIRCLE, NotRequired, None))
+  <> fst (q [] (DOTTED_CIRCLE, NotRequired, None)).
+Proof.
+  cbv zeta.
+  apply (memo_refuted Z.eqb Z.eqb_eq lg_f lg_key_ch (fun _ => true) (fun _ => true)); try reflexivity.
+  vm_compute. discriminate.
+Qed.
+
+(* set_embedded_image_filter without the reset: the slot filled under the default filter answers for filter 0 *)
+Definition fs_img : font_static := mk_font_static [] [] GTF_SBIX GTF_SBIX.
+Lemma filter_without_reset_is_stale :
+  let st1 := snd (has_embedded_images fs_img font_new) in
+  let st_old := mk_font_state (st_glyph_cache st1) (st_images st1) 0 in
+  fst (has_embedded_images fs_img st_old) = true /\ images_spec fs_img 0 = false /\
+  fst (has_embedded_images fs_img (set_embedded_image_filter st1 0)) = false.
+Proof. vm_compute. auto. Qed.
+
+(* the site records of the unfixed sources do not meet the obligation *)
+Import String.StringSyntax.
+Open Scope string_scope.
+Lemma old_sites_fail :
+  site_ok (mk_site "get_lookups_cache_index" "src/gsub.rs" ["script_tag"; "opt_lang_tag"; "feature_mask"]
+                   ["gsub_cache"; "script_tag"; "opt_lang_tag"; "feature_variations"; "feature_mask"] []
+                   ["gsub_cache"] false) = false /\
+  site_ok (mk_site "lookup_glyph_index.glyph_cache" "src/font.rs" ["ch"]
+                   ["self"; "ch"; "match_presentation"; "variation_selector"] [] ["self"] true) = false /\
+  site_ok (mk_site "embedded_images.embedded_images" "src/font.rs" []
+                   ["embedded_image_filter"; "font_table_provider"; "glyph_table_flags"; "maxp_table"] []
+                   ["font_table_provider"; "glyph_table_flags"; "maxp_table"] true) = false.
+Proof. vm_compute. auto. Qed.
+Close Scope string_scope.
